@@ -228,6 +228,12 @@ def self_write_set(fn_node):
                 a = attr_of(f.value)
                 if a:
                     out.add(a)
+            for kw in nd.keywords:
+                # numpy's out=<array>: the call writes into the array held in self.<attr>
+                if kw.arg == "out":
+                    a = attr_of(kw.value)
+                    if a:
+                        out.add(a)
             if isinstance(f, ast.Name) and f.id in ("setattr", "delattr") and nd.args and isinstance(nd.args[0], ast.Name) and nd.args[0].id == me:
                 out.add("*")
         for t in tg:
